@@ -1,5 +1,399 @@
-/- Model for C18 (core Lean only, no Mathlib). -/
+/-
+Model for C18 (core Lean only, no Mathlib): part writers of `odc/geo/cog/_s3.py` and
+`odc/geo/cog/_mpu_fs.py`.
+
+* `Local`  – transition system of `DelayedS3Writer.__call__ / finalise` when no dask client
+             exists: every thread shares one `MultiPartUpload` object and the process-wide
+             `threading.Lock` of `_mpu_local_lock()`.
+* `Dist`   – the cluster-coordinated branch: one `MultiPartUpload` copy per worker process,
+             a `distributed.Variable` holding the upload id and a `distributed.Lock`.
+* `Sink`   – `MPUFileSink.__call__ / finalise` over an abstract parts directory.
+* limits   – `S3Limits` and the keyword-driven limits of `MPUFileSink`.
+
+A *step* of a thread is: perform the one shared-state operation it is waiting at (read or
+write of `mpu.uploadId`, `get_client()`, lock acquire / release, `Variable.get/set/delete`,
+a storage-client call) and run the thread-local code up to the next such operation.  These
+are exactly the points at which the harness' deterministic scheduler can pre-empt the real
+code.  `step` is total: scheduling a thread that is blocked on the lock, or has returned or
+raised, leaves the state unchanged.
+
+Upload ids are modelled as `Nat`: `0` is the empty string, the `k`-th
+`create_multipart_upload` returns id `k` (the fake S3 client of the harness returns `"id<k>"`).
+
+Each model carries a flag selecting the code *as found* (defects F5, F17, F4 of DESIGN §5)
+or *as repaired*; the driver and the `*_once` / `sink_*` / `limits_*` theorems use the
+repaired code, the `*_cex` theorems the code as found.
+-/
 import OdcGeo.Model.IO
 namespace OdcGeo.C18
+
+/-- A call received by the storage client (most recent first in `State.calls`). -/
+inductive Call where
+  | create (id : Nat)              -- `create_multipart_upload` → returned `"id<id>"`
+  | upload (part : Nat) (id : Nat) -- `upload_part(PartNumber=part, UploadId="id<id>")`
+  | complete (id : Nat)            -- `complete_multipart_upload(UploadId="id<id>")`
+  deriving DecidableEq, Repr
+
+def Call.isCreate : Call → Bool
+  | .create _ => true
+  | _ => false
+
+/-- the upload id a call carries -/
+def Call.id : Call → Nat
+  | .create i => i
+  | .upload _ i => i
+  | .complete i => i
+
+/-- What a thread does with the shared writer. -/
+inductive Kind where
+  | write (part : Nat)   -- `writer(part, data)`            (_s3.py:304-306)
+  | fin                  -- `writer.finalise(parts)`        (_s3.py:308-316)
+  deriving DecidableEq, Repr
+
+/-! ## Local variant (`_ensure_init`, branch `client is None`, _s3.py:262-274) -/
+namespace Local
+
+/-- Program counter: the shared operation the thread performs next. -/
+inductive PC where
+  | start            -- `if mpu.started` (265): reads `mpu.uploadId`
+  | askClient        -- `_dask_client()` (268) → `get_client()` raises ValueError → `None`
+  | acquire          -- `with _mpu_local_lock():` (271) – blocks while the lock is held
+  | recheck          -- repaired code only: `mpu.started` re-read under the lock
+  | initAssert       -- `initiate`: `assert self.uploadId == ""` (111)
+  | create           -- `s3.create_multipart_upload(...)` (114)
+  | setId (id : Nat) -- `self.uploadId = uploadId` (116)
+  | release (ok : Bool) -- leaving the `with` block; `ok = false`: AssertionError in flight
+  | useAssert        -- `write_part` / `finalise`: `assert self.uploadId` (121 / 138)
+  | readId           -- evaluation of `UploadId=self.uploadId` (127 / 143)
+  | call (id : Nat)  -- `s3.upload_part` (122) / `s3.complete_multipart_upload` (140)
+  | askClient2       -- `finalise` only: `_dask_client()` (312) → `None`
+  | done             -- returned normally
+  | failed           -- raised (AssertionError)
+  deriving DecidableEq, Repr
+
+structure State where
+  uploadId : Nat := 0          -- `mpu.uploadId`, `0` = `""`
+  lock : Option Nat := none    -- holder of the process-wide lock
+  creates : Nat := 0           -- number of `create_multipart_upload` calls so far
+  calls : List Call := []      -- client calls, most recent first
+  pc : Nat → PC := fun _ => .start
+
+structure Cfg where
+  kind : Nat → Kind
+  /-- `true`: repaired code (re-check `mpu.started` under the lock); `false`: as found (F5). -/
+  recheck : Bool := true
+
+def State.goto (s : State) (t : Nat) (p : PC) : State :=
+  { s with pc := fun i => if i = t then p else s.pc i }
+
+def init : State := {}
+
+/-- One atomic step of thread `t`. -/
+def step (cfg : Cfg) (s : State) (t : Nat) : State :=
+  match s.pc t with
+  | .start => s.goto t (if s.uploadId ≠ 0 then .useAssert else .askClient)
+  | .askClient => s.goto t .acquire
+  | .acquire =>
+    match s.lock with
+    | none => { s with lock := some t }.goto t (if cfg.recheck then .recheck else .initAssert)
+    | some _ => s
+  | .recheck => s.goto t (if s.uploadId ≠ 0 then .release true else .initAssert)
+  | .initAssert => s.goto t (if s.uploadId = 0 then .create else .release false)
+  | .create =>
+    { s with creates := s.creates + 1, calls := .create (s.creates + 1) :: s.calls }.goto t
+      (.setId (s.creates + 1))
+  | .setId id => { s with uploadId := id }.goto t (.release true)
+  | .release ok => { s with lock := none }.goto t (if ok then .useAssert else .failed)
+  | .useAssert => s.goto t (if s.uploadId ≠ 0 then .readId else .failed)
+  | .readId => s.goto t (.call s.uploadId)
+  | .call id =>
+    match cfg.kind t with
+    | .write p => { s with calls := .upload p id :: s.calls }.goto t .done
+    | .fin => { s with calls := .complete id :: s.calls }.goto t .askClient2
+  | .askClient2 => s.goto t .done
+  | .done => s
+  | .failed => s
+
+/-- A schedule is the list of thread ids in the order in which they are given a step. -/
+def runFrom (cfg : Cfg) (s : State) (sched : List Nat) : State := sched.foldl (step cfg) s
+
+def run (cfg : Cfg) (sched : List Nat) : State := runFrom cfg init sched
+
+/-- thread `t` can make progress (its `step` is not a stutter) -/
+def enabled (s : State) (t : Nat) : Bool :=
+  match s.pc t with
+  | .done | .failed => false
+  | .acquire => s.lock.isNone
+  | _ => true
+
+/-- The shared operation performed at a program point, as observed by the scheduler. -/
+def label (cfg : Cfg) (s : State) (t : Nat) : String :=
+  match s.pc t with
+  | .start | .recheck | .initAssert | .useAssert | .readId => "rd"
+  | .setId _ => "wr"
+  | .askClient | .askClient2 => "gc"
+  | .acquire => if s.lock.isNone then "acq" else "acq!"
+  | .release _ => "rel"
+  | .create => "create"
+  | .call _ => match cfg.kind t with | .write _ => "upload" | .fin => "complete"
+  | .done | .failed => "-"
+
+end Local
+
+/-! ## Distributed variant (`_ensure_init`, branch with a client, _s3.py:276-302) -/
+namespace Dist
+
+/-- how the `with lock:` block is being left -/
+inductive After where
+  | raise   -- exception in flight
+  | ret     -- `return mpu` inside the block (292)
+  | fall    -- fell through to `assert mpu.started or final_write` (301)
+  deriving DecidableEq, Repr
+
+inductive PC where
+  | start              -- `if mpu.started` (265): reads this worker's `mpu.uploadId`
+  | askClient          -- `_dask_client()` (268) → the worker's client
+  | get1               -- `_safe_get(shared_state)` (279)
+  | setOwn1 (id : Nat) -- `mpu.uploadId = uploadId` (283)
+  | acquire            -- `with lock:` (287), `distributed.Lock`
+  | get2               -- `_safe_get(shared_state)` under the lock (288)
+  | setOwn2 (id : Nat) -- `mpu.uploadId = uploadId` (291)
+  | initAssert         -- `initiate`: `assert self.uploadId == ""` (111)
+  | create             -- `s3.create_multipart_upload` (114)
+  | setId (id : Nat)   -- `self.uploadId = uploadId` (116)
+  | readForVar         -- evaluation of `mpu.uploadId` in `shared_state.set(mpu.uploadId)` (299)
+  | setVar (id : Nat)  -- `shared_state.set(...)` (299)
+  | release (a : After)
+  | endAssert          -- `assert mpu.started or final_write` (301)
+  | useAssert          -- `assert self.uploadId` (121 / 138)
+  | readId             -- `UploadId=self.uploadId` (127 / 143)
+  | call (id : Nat)    -- `upload_part` / `complete_multipart_upload`
+  | askClient2         -- `finalise`: `_dask_client()` (312) → client
+  | delVar             -- `cleanup_client` → `Variable.delete()` (248)
+  | done
+  | failed
+  deriving DecidableEq, Repr
+
+structure State where
+  wid : Nat → Nat := fun _ => 0   -- per worker: `mpu.uploadId` of that worker's copy, `0` = `""`
+  var : Option Nat := none        -- the shared Variable as seen through `_safe_get`: `None` or an id
+  deleted : Bool := false         -- ghost: some `finalise` has deleted the Variable
+  lock : Option Nat := none       -- holder (thread) of the distributed lock
+  creates : Nat := 0
+  calls : List Call := []
+  pc : Nat → PC := fun _ => .start
+
+structure Cfg where
+  kind : Nat → Kind
+  worker : Nat → Nat     -- worker process on which thread `t` runs
+
+def State.goto (s : State) (t : Nat) (p : PC) : State :=
+  { s with pc := fun i => if i = t then p else s.pc i }
+
+def State.setWid (s : State) (w : Nat) (id : Nat) : State :=
+  { s with wid := fun i => if i = w then id else s.wid i }
+
+def init : State := {}
+
+def step (cfg : Cfg) (s : State) (t : Nat) : State :=
+  let w := cfg.worker t
+  match s.pc t with
+  | .start => s.goto t (if s.wid w ≠ 0 then .useAssert else .askClient)
+  | .askClient => s.goto t .get1
+  | .get1 =>
+    match s.var with
+    | some id => s.goto t (.setOwn1 id)
+    | none => s.goto t .acquire
+  | .setOwn1 id => (s.setWid w id).goto t .useAssert
+  | .acquire =>
+    match s.lock with
+    | none => { s with lock := some t }.goto t .get2
+    | some _ => s
+  | .get2 =>
+    match s.var with
+    | some id => s.goto t (.setOwn2 id)
+    | none => s.goto t .initAssert
+  | .setOwn2 id => (s.setWid w id).goto t (.release .ret)
+  | .initAssert => s.goto t (if s.wid w = 0 then .create else .release .raise)
+  | .create =>
+    { s with creates := s.creates + 1, calls := .create (s.creates + 1) :: s.calls }.goto t
+      (.setId (s.creates + 1))
+  | .setId id => (s.setWid w id).goto t .readForVar
+  | .readForVar => s.goto t (.setVar (s.wid w))
+  | .setVar id => { s with var := some id }.goto t (.release .fall)
+  | .release a =>
+    { s with lock := none }.goto t
+      (match a with | .raise => .failed | .ret => .useAssert | .fall => .endAssert)
+  | .endAssert => s.goto t (if s.wid w ≠ 0 then .useAssert else .failed)
+  | .useAssert => s.goto t (if s.wid w ≠ 0 then .readId else .failed)
+  | .readId => s.goto t (.call (s.wid w))
+  | .call id =>
+    match cfg.kind t with
+    | .write p => { s with calls := .upload p id :: s.calls }.goto t .done
+    | .fin => { s with calls := .complete id :: s.calls }.goto t .askClient2
+  | .askClient2 => s.goto t .delVar
+  | .delVar => { s with var := none, deleted := true }.goto t .done
+  | .done => s
+  | .failed => s
+
+def runFrom (cfg : Cfg) (s : State) (sched : List Nat) : State := sched.foldl (step cfg) s
+
+def run (cfg : Cfg) (sched : List Nat) : State := runFrom cfg init sched
+
+def enabled (s : State) (t : Nat) : Bool :=
+  match s.pc t with
+  | .done | .failed => false
+  | .acquire => s.lock.isNone
+  | _ => true
+
+def label (cfg : Cfg) (s : State) (t : Nat) : String :=
+  match s.pc t with
+  | .start | .initAssert | .readForVar | .endAssert | .useAssert | .readId => "rd"
+  | .setOwn1 _ | .setOwn2 _ | .setId _ => "wr"
+  | .askClient | .askClient2 => "gc"
+  | .get1 | .get2 => "vget"
+  | .setVar _ => "vset"
+  | .delVar => "vdel"
+  | .acquire => if s.lock.isNone then "acq" else "acq!"
+  | .release _ => "rel"
+  | .create => "create"
+  | .call _ => match cfg.kind t with | .write _ => "upload" | .fin => "complete"
+  | .done | .failed => "-"
+
+end Dist
+
+/-! ## File sink (`MPUFileSink`, _mpu_fs.py:53-92) -/
+
+abbrev Bytes := List Nat
+
+inductive SinkErr where
+  | assertion      -- `assert len(parts) > 0`
+  | fileNotFound   -- rename / open / stat of a part file that is not there
+  | valueError     -- code as found: `mmap` of an empty file (F17)
+  | osError        -- `rmdir` of a non-empty parts directory
+  deriving DecidableEq, Repr
+
+def SinkErr.toStr : SinkErr → String
+  | .assertion => "ERR:AssertionError"
+  | .fileNotFound => "ERR:FileNotFoundError"
+  | .valueError => "ERR:ValueError"
+  | .osError => "ERR:OSError"
+
+/-- The part of the file system a sink touches: its parts directory (part number ↦ content
+of `p<part>.bin`) and the destination file. -/
+structure Sink where
+  dirExists : Bool := false
+  parts : List (Nat × Bytes) := []
+  dst : Option Bytes := none
+  deriving DecidableEq, Repr
+
+namespace Sink
+
+def lookup (s : Sink) (p : Nat) : Option Bytes := s.parts.lookup p
+
+def unlink (s : Sink) (p : Nat) : Sink := { s with parts := s.parts.filter (fun q => q.1 != p) }
+
+/-- `sink(part, data)` (62-68): create the directory when missing, (over)write `p<part>.bin`. -/
+def write (s : Sink) (w : Nat × Bytes) : Sink :=
+  { s with dirExists := true, parts := (w.1, w.2) :: s.parts.filter (fun q => q.1 != w.1) }
+
+/-- the loop over `rest` (78-87); `fixed = false` is the code as found (F17). -/
+def appendParts (fixed keep : Bool) : Sink → List Nat → Sink × Option SinkErr
+  | s, [] => (s, none)
+  | s, p :: rest =>
+    match s.lookup p with
+    | none => (s, some .fileNotFound)
+    | some data =>
+      if data.isEmpty && !fixed then (s, some .valueError)
+      else
+        let s := { s with dst := s.dst.map (· ++ data) }
+        let s := if keep then s else s.unlink p
+        appendParts fixed keep s rest
+
+/-- `sink.finalise(parts, keep_parts)` (70-92); `ps` are the part numbers of the given dicts
+in the given order.  The state is returned also when an exception is raised. -/
+def finalise (fixed : Bool) (s : Sink) (ps : List Nat) (keep : Bool) : Sink × Option SinkErr :=
+  match ps with
+  | [] => (s, some .assertion)
+  | first :: rest =>
+    match s.lookup first with
+    | none => (s, some .fileNotFound)
+    | some d =>
+      match appendParts fixed keep { (s.unlink first) with dst := some d } rest with
+      | (s, some e) => (s, some e)
+      | (s, none) =>
+        if keep then (s, none)
+        else if s.parts.isEmpty then ({ s with dirExists := false }, none)
+        else (s, some .osError)
+
+end Sink
+
+/-- `p{part:04d}.bin` -/
+def partFileName (part : Nat) : String :=
+  let d := toString part
+  "p" ++ String.ofList (List.replicate (4 - d.length) '0') ++ d ++ ".bin"
+
+/-- `MPUFileSink.__init__` (27-31) + `_ensure_dst_file` (60): path of a part file, for a
+destination `parent/name` and optional `parts_base`. -/
+def partPath (parent name : String) (base : Option String) (part : Nat) : String :=
+  let root := match base with | none => parent | some b => b
+  root ++ "/." ++ name ++ ".parts/" ++ partFileName part
+
+/-! ## Limits (`S3Limits` _s3.py:49-68, `MPUFileSink` _mpu_fs.py:37-51) -/
+
+/-- The accessors of the `PartsWriter` protocol (_mpu.py:42-52). -/
+inductive Acc where
+  | minWriteSz | maxWriteSz | minPart | maxPart
+  deriving DecidableEq, Repr
+
+def Acc.all : List Acc := [.minWriteSz, .maxWriteSz, .minPart, .maxPart]
+
+def Acc.name : Acc → String
+  | .minWriteSz => "min_write_sz"
+  | .maxWriteSz => "max_write_sz"
+  | .minPart => "min_part"
+  | .maxPart => "max_part"
+
+/-- `S3Limits`: constants for `MultiPartUpload` and `DelayedS3Writer`. -/
+def s3Limit : Acc → Int
+  | .minWriteSz => 5 * 2 ^ 20
+  | .maxWriteSz => 5 * 2 ^ 30
+  | .minPart => 1
+  | .maxPart => 10000
+
+/-- keyword arguments given to `MPUFileSink(dst, **limits)` -/
+structure LimitKw where
+  minWriteSz : Option Int := none
+  maxWriteSz : Option Int := none
+  minPart : Option Int := none
+  maxPart : Option Int := none
+  deriving DecidableEq, Repr
+
+def LimitKw.get (kw : LimitKw) : Acc → Option Int
+  | .minWriteSz => kw.minWriteSz
+  | .maxWriteSz => kw.maxWriteSz
+  | .minPart => kw.minPart
+  | .maxPart => kw.maxPart
+
+/-- `dict.get(key, default)` -/
+def dictGet (v : Option Int) (dflt : Int) : Int :=
+  match v with
+  | some x => x
+  | none => dflt
+
+/-- `MPUFileSink.<accessor>`; `fixed = false` is the code as found (F4: both `max_*`
+accessors look up the `min_*` keyword). -/
+def sinkLimit (fixed : Bool) (kw : LimitKw) : Acc → Int
+  | .minWriteSz => dictGet kw.minWriteSz 4096
+  | .maxWriteSz => dictGet (if fixed then kw.maxWriteSz else kw.minWriteSz) (5 * 2 ^ 30)
+  | .minPart => dictGet kw.minPart 1
+  | .maxPart => dictGet (if fixed then kw.maxPart else kw.minPart) 10000
+
+/-- documented defaults of the file sink -/
+def sinkDefault : Acc → Int
+  | .minWriteSz => 4096
+  | .maxWriteSz => 5 * 2 ^ 30
+  | .minPart => 1
+  | .maxPart => 10000
 
 end OdcGeo.C18
